@@ -1,0 +1,10 @@
+//go:build verif
+
+package objectcore
+
+import "github.com/nspcc-dev/neofs-sdk-go/client"
+
+// VerifCalcMaxUniqueSearchResults exports calcMaxUniqueSearchResults for the verification harness.
+func VerifCalcMaxUniqueSearchResults(lim uint16, sets [][]client.SearchResultItem) uint16 {
+	return calcMaxUniqueSearchResults(lim, sets)
+}
